@@ -162,7 +162,8 @@ package influxql
 //@   requires forallint(j, 0 <= j && j < rslen(p.s.s.r) ==> rsin(p.s.s.r, j) != 0)
 //@   requires forall(k, 0, len(toks), toks[k] >= 0 && toks[k] <= WRITE)
 //@   ensures p.s == old(p.s) && 0 <= p.s.i && p.s.i < 3 && 0 <= p.s.n && p.s.n <= old(p.s.n) && p.s.s == old(p.s.s) && p.s.s.r == old(p.s.s.r) && 0 <= p.s.s.r.i && p.s.s.r.i < 3 && 0 <= p.s.s.r.n && p.s.s.r.n <= 3
-//@   loop 1 invariant p.s == entry(p.s) && p.s.s == entry(p.s.s) && p.s.s.r == entry(p.s.s.r) && 0 <= p.s.s.r.i && p.s.s.r.i < 3 && 0 <= p.s.s.r.n && p.s.s.r.n <= 3 && 0 <= p.s.i && p.s.i < 3 && 0 <= p.s.n && p.s.n <= entry(p.s.n) && -1 <= rangeindex && rangeindex < len(toks)
+//@   ensures len(toks) >= 1 ==> (old(p.s.n) > 0 ==> p.s.n <= old(p.s.n) - 1) && (old(p.s.n) == 0 ==> p.s.n == 0)
+//@   loop 1 invariant p.s == entry(p.s) && p.s.s == entry(p.s.s) && p.s.s.r == entry(p.s.s.r) && 0 <= p.s.s.r.i && p.s.s.r.i < 3 && 0 <= p.s.s.r.n && p.s.s.r.n <= 3 && 0 <= p.s.i && p.s.i < 3 && 0 <= p.s.n && p.s.n <= entry(p.s.n) && -1 <= rangeindex && rangeindex < len(toks) && (rangeindex >= 0 ==> (entry(p.s.n) > 0 ==> p.s.n <= entry(p.s.n) - 1) && (entry(p.s.n) == 0 ==> p.s.n == 0))
 
 // Statement handlers registered in the dispatch tree (parse_tree.go init): every
 // function value of this signature that exists in the package is verified
@@ -178,6 +179,7 @@ package influxql
 //@   requires forallint(j, 0 <= j && j < rslen(p.s.s.r) ==> rsin(p.s.s.r, j) != 0)
 //@   ensures p.s == old(p.s) && p.s.s == old(p.s.s) && p.s.s.r == old(p.s.s.r) && p.s != nil && 0 <= p.s.i && p.s.i < 3 && 0 <= p.s.n && p.s.s != nil && p.s.s.r != nil && 0 <= p.s.s.r.i && p.s.s.r.i < 3 && 0 <= p.s.s.r.n && p.s.s.r.n <= 3 && p.s.n <= 3
 //@   ensures result1 == nil ==> result0 != nil
+//@   ensures result1 == nil ==> p.s.n <= 1
 
 //@ globalinv Language != nil
 
@@ -189,4 +191,5 @@ package influxql
 //@   requires forallint(j, 0 <= j && j < rslen(p.s.s.r) ==> rsin(p.s.s.r, j) != 0)
 //@   ensures p.s == old(p.s) && p.s.s == old(p.s.s) && p.s.s.r == old(p.s.s.r) && p.s != nil && 0 <= p.s.i && p.s.i < 3 && 0 <= p.s.n && p.s.s != nil && p.s.s.r != nil && 0 <= p.s.s.r.i && p.s.s.r.i < 3 && 0 <= p.s.s.r.n && p.s.s.r.n <= 3 && p.s.n <= 3
 //@   ensures result1 == nil ==> result0 != nil
+//@   ensures result1 == nil ==> p.s.n <= 1
 //@   loop * invariant t != nil && p.s.n <= 1 && p.s == entry(p.s) && p.s.s == entry(p.s.s) && p.s.s.r == entry(p.s.s.r) && p.s != nil && 0 <= p.s.i && p.s.i < 3 && 0 <= p.s.n && p.s.s != nil && p.s.s.r != nil && 0 <= p.s.s.r.i && p.s.s.r.i < 3 && 0 <= p.s.s.r.n && p.s.s.r.n <= 3 && p.s.n <= 3
